@@ -20,12 +20,13 @@ class EntropyDevice:
         self.counter = 0
         self.buf = b""
         self.requests = []          # [n_bytes, tag, epoch, outcome]
-        self.tag = None             # operation in flight (set by the executor)
+        self._tag = None            # operation in flight (set by the executor; per thread via thread_tags)
         self.fault = None           # None | "EIO" | "NOSYS" | "EAGAIN_ONCE"
         self.fault_hits = {}
         self.served = b""
         self.forced = None          # bytes to serve next instead of the keyed stream (bit-sensitivity tests)
         self.env_reads = {}         # environment variables read while a request was in flight
+        self.thread_tags = {}       # thread ident -> tag (concurrent clients: each request is booked to its caller)
         self._saved = []
 
     def reseed(self, key=None, epoch=None):
@@ -40,6 +41,16 @@ class EntropyDevice:
         blk = hashlib.sha512(b"entropy-device|" + self.key + b"|%d|%d" % (self.epoch, self.counter)).digest()
         self.counter += 1
         self.buf += blk
+
+    def _cur_tag(self):
+        if self.thread_tags:
+            import threading
+            t = self.thread_tags.get(threading.get_ident())
+            if t is not None:
+                return t
+        return self._tag
+
+    tag = property(_cur_tag, lambda self, v: setattr(self, "_tag", v))
 
     def read(self, n, via="urandom"):
         n = int(n)
